@@ -114,6 +114,11 @@ func (rs *ResourceSubscription) GetModel() (*Model, uint) {
 func (rs *ResourceSubscription) Unsubscribe(sub Subscriber) {
 	rs.e.Enqueue(func() {
 		if sub != nil {
+			// Quick exit if the subscriber is already removed, and its count
+			// released, by a delete event.
+			if _, ok := rs.subs[sub]; !ok {
+				return
+			}
 			delete(rs.subs, sub)
 		}
 
